@@ -1699,6 +1699,11 @@ impl UnifiedCommandExecutor {
             }
             
             BitCommand::SetBit { key, offset, value } => {
+                // like Redis: bit offsets stop at 2^32 - 1 (512 MB values); the value is resized by it
+                if offset > u32::MAX as usize {
+                    return Err(FerrousError::Command(CommandError::Generic(
+                        "bit offset is not an integer or out of range".to_string())));
+                }
                 let byte_offset = offset / 8;
                 let bit_offset = offset % 8;
                 
